@@ -21,11 +21,11 @@ else
   for f in "$D"/*.go; do cp "$f" "$W/$(dirname "$demo_path")/"; DEMOS+=("$W/$(dirname "$demo_path")/$(basename "$f")"); done
 fi
 cd "$W" || exit 2
-demo_cmd=${demo_cmd//\/tmp\/seed\/[A-Z0-9]*\//$W/}
 demo_cmd=${demo_cmd//<worktree>/$W}
 # the demo file is already in place: keep only the `go test …` part of the recorded command
 demo_cmd=$(echo "$demo_cmd" | grep -o 'go test.*' | sed -E 's/&&.*$//' | head -1)
 demo_cmd=$(echo "$demo_cmd" | sed -E "s#/tmp/seed/C[0-9]+#$W#g")
+[ -z "$demo_cmd" ] && { echo "RESULT $N no-demo-command"; exit 1; }
 echo "== demo without change: $demo_cmd"
 if (eval "$demo_cmd") > /tmp/seedval-$N.clean.log 2>&1; then clean=pass; else clean=FAIL; fi
 echo "== apply patch"
